@@ -32,6 +32,8 @@ func c10Ops(sess int) (W, R, F []Op) {
 		// lists
 		{"RPUSH", "wl", "p"}, {"LPUSH", "wl", "p"}, {"LPOP", "wl"}, {"RPOP", "wl"}, {"LSET", "wl", "0", "s"}, {"LINSERT", "wl", "BEFORE", "e", "i"}, {"LREM", "wl", "0", "e"}, {"LTRIM", "wl", "0", "0"}, {"LMOVE", "wl", "u", "LEFT", "LEFT"}, {"LMOVE", "ul", "wl", "LEFT", "LEFT"},
 		{"LMOVE", "wl", "wl", "LEFT", "RIGHT"}, {"RPOPLPUSH", "wl", "wn"}, {"LMPOP", "1", "wl", "LEFT"}, {"LPUSHX", "wl", "p"}, {"BLPOP", "wl", "0.01"}, {"BLMOVE", "wl", "wn", "LEFT", "LEFT", "0.01"}, {"RPUSH", "wn", "created"},
+		{"LSET", "wm", "1", "s"}, {"LSET", "wm", "2", "s"}, {"LSET", "wm", "-2", "s"}, {"LINSERT", "wm", "BEFORE", "c", "i"}, {"LREM", "wm", "0", "c"}, {"LTRIM", "wm", "1", "3"},
+		{"HSET", "wg", "f2", "changed"}, {"HSET", "wg", "f3", "changed"}, {"HDEL", "wg", "f3"}, {"HINCRBY", "wg", "f4", "1"}, {"SREM", "wy", "m2"}, {"SREM", "wy", "m3"}, {"SMOVE", "wy", "u2", "m4"},
 		// hashes
 		{"HSET", "wh", "q", "v"}, {"HSET", "wh", "f", "changed"}, {"HSETNX", "wh", "q", "v"}, {"HDEL", "wh", "f"}, {"HDEL", "wh", "f", "g"}, {"HINCRBY", "wh", "f", "2"}, {"HINCRBYFLOAT", "wh", "f", "0.5"}, {"HMSET", "wh", "q", "v"}, {"HSET", "wn", "f", "created"},
 		// sets
@@ -66,14 +68,16 @@ func c10Fixture() []Op {
 	return []Op{
 		cs(1, "SET", "ws", "5"), cs(1, "RPUSH", "wl", "e", "e2"), cs(1, "HSET", "wh", "f", "1", "g", "x"), cs(1, "SADD", "wz", "m", "n2"), cs(1, "SET", "wt", "1", "PX", "50000"),
 		cs(1, "RPUSH", "ul", "b", "a"), cs(1, "SADD", "uz", "m", "z9"),
+		// longer aggregates: a change can be in the interior, away from the ends / the first element
+		cs(1, "RPUSH", "wm", "a", "b", "c", "d", "e5"), cs(1, "HSET", "wg", "f1", "1", "f2", "2", "f3", "3", "f4", "4"), cs(1, "SADD", "wy", "m1", "m2", "m3", "m4"),
 	}
 }
 
-var c10Watched = []string{"ws", "wl", "wh", "wz", "wn", "wt"}
+var c10Watched = []string{"ws", "wl", "wh", "wz", "wn", "wt", "wm", "wg", "wy"}
 
 func specC10(tier string, variant int) *SeqSpec {
 	id := []string{"C10", "C10#inmulti", "C10#db1"}[variant]
-	s := &SeqSpec{ID: id, Sessions: 2, Keys: []string{"ws", "wl", "wh", "wz", "wn", "wt", "u", "ul", "uz", "u2", "u3", "u4", "u5", "probe"}, DBs: []int{0}, TTL: true}
+	s := &SeqSpec{ID: id, Sessions: 2, Keys: []string{"ws", "wl", "wh", "wz", "wn", "wt", "wm", "wg", "wy", "u", "ul", "uz", "u2", "u3", "u4", "u5", "probe"}, DBs: []int{0}, TTL: true}
 	w0, r0, f0 := c10Ops(0)
 	w1, r1, f1 := c10Ops(1)
 	expire := Op{Sess: 1, Args: []string{"PING"}, Advance: 50002} // the clock passes wt's deadline
